@@ -707,10 +707,10 @@ class ParameterConfig:
       returned if the parameter config is continuous and thus cannot have
       a subspace.
     """
-    if not math.isfinite(self.num_feasible_values):
-      return SearchSpace()
     value = trial.ParameterValue(value).cast_as_internal(self.type)
     self._assert_feasible(value)
+    if not math.isfinite(self.num_feasible_values):
+      return SearchSpace()
     return copy.deepcopy(self._children.get(value, SearchSpace()))
 
   def subspace(self, value: ParameterValueTypes) -> 'SearchSpace':
